@@ -22,14 +22,24 @@ REGION = {"type": "Feature", "geometry": {"type": "Polygon", "coordinates": [[[-
           "properties": {}}
 
 
+def _forget_optional_modules():
+    """every spelling is parsed as a fresh process would parse it: the check modules a configuration may name (argo, axds) are not
+    imported yet - whether some earlier configuration happened to import them must not matter"""
+    import sys
+    for k in ("ioos_qc.argo", "ioos_qc.axds"):
+        sys.modules.pop(k, None)
+
+
 class Spellings(Job):
     prop = "C07"
 
-    def __init__(self, shape, streams=1, tests=2, contexts=1, window=False, region=False, unknown=False, canary=None):
+    def __init__(self, shape, streams=1, tests=2, contexts=1, window=False, region=False, unknown=False, canary=None, modules=None):
         self.shape, self.streams, self.ntests, self.contexts, self.window, self.region, self.unknown = shape, streams, tests, contexts, window, region, unknown
         self.canary = canary
+        # restrict the configured tests to some modules (e.g. only argo / axds: a configuration that never mentions qartod)
+        self.pool = [mt for mt in TESTS if modules is None or mt[0] in modules]
         self.name = (f"spellings params={shape} streams={streams} tests={tests} contexts={contexts} window={window} region={region} "
-                     f"unknown_names={unknown}") + (f" CANARY={canary}" if canary else "")
+                     f"unknown_names={unknown}{' modules=' + '+'.join(modules) if modules else ''}") + (f" CANARY={canary}" if canary else "")
         if canary:
             self.expect_canary_sat = True
             self.validate_witnesses = False
@@ -77,7 +87,7 @@ class Spellings(Job):
                 sid = f"var{s}" if not (self.streams == 1 and self.contexts == 1 and not self.window and not self.region and False) else "_stream"
                 mods = OrderedDict()
                 for q in range(self.ntests):
-                    m, t = TESTS[q % len(TESTS)]
+                    m, t = self.pool[q % len(self.pool)]
                     mods.setdefault(m, OrderedDict())[t] = self._kwargs(S.p[c][s][q], q, S)
                 if self.unknown:
                     mods.setdefault("qartod", OrderedDict())["not_a_test"] = {"foo": [1, None]}
@@ -141,6 +151,7 @@ class Spellings(Job):
         Config = mods.config.Config
         res = OrderedDict()
         for name, source in self.layouts(S, K).items():
+            _forget_optional_modules()
             res[name] = self._calls(Config(source))
         carriers = None
         if not K.sym:
@@ -346,6 +357,10 @@ class _CfgKit:
 
 def jobs(tier):
     out = []
+    # first in the list, so that they run in freshly forked workers in which nothing has imported ioos_qc.argo / ioos_qc.axds yet
+    out.append(Spellings("scalars", streams=1, tests=1, modules=("argo",)))
+    out.append(Spellings("scalars", streams=1, tests=1, modules=("axds",)))
+    out.append(Spellings("scalars", streams=1, tests=2, modules=("argo", "axds")))
     for sh in SHAPES:
         out.append(Spellings(sh, streams=1, tests=2))
         out.append(Spellings(sh, streams=2, tests=2))
